@@ -607,6 +607,9 @@ async fn run_script(script: &Value, out: &mut impl Write) {
                 let bytes = pdu.encode();
                 if step["ch"].as_str().unwrap() == "c2r" { w.c2r.push(bytes) } else { w.c2s.push(bytes) }
             }
+            "Blackout" => {
+                // the model marks a direction as dark; the losses themselves are Drop steps
+            }
             "Tick" => {
                 tokio::time::advance(Duration::from_secs(step["d"].as_u64().unwrap())).await;
             }
